@@ -885,7 +885,7 @@ impl VecModel {
                             if (k as usize) > room {
                                 continue;
                             }
-                            for hint in [0u8, 1] {
+                            for hint in [0u8, 1, 2] {
                                 for mode in [0u8, 3] {
                                     acts.push(VAct::Splice { r, n: k, hint, mode });
                                 }
